@@ -684,7 +684,7 @@ def make_jobs(ctx: Ctx, scratch: str) -> T.List[dict]:
     for name, files, args in FIXED_PROJECTS:
         jobs.append({'kind': 'files', 'label': name, 'files': files, 'args': args})
     matrix = projgen.option_matrix()
-    per = ctx.scale(2, 40)
+    per = ctx.scale(3, 40)
     for label, args in matrix:
         for _ in range(per):
             jobs.append(gen_job(rng, label, args))
